@@ -14,7 +14,7 @@ func c01Cfg(c *Check) GenCfg {
 }
 
 func checkC01(c *Check) {
-	c.Rule = "enumerated families (operator pairs, edge arithmetic, last-statement/exit status, loop skeletons, switch forms, definition forms) plus a seeded random sweep of scalar programs; a case is non-trivial when the reference run printed at least one line and executed at least 3 distinct construct kinds; distinct = SHA-256 of the source text"
+	c.Rule = "enumerated families (operator pairs, edge arithmetic, last-statement/exit status, loop skeletons, switch forms, definition forms, compound assignment x right-hand-side shape) plus a seeded random sweep of scalar programs; a case is non-trivial when the reference run printed at least one line and executed at least 3 distinct construct kinds; distinct = SHA-256 of the source text"
 	c.Assumptions = []string{"reference interpreter implements the Go meaning plus the README deviations", "/bin/bash 5.2 is the execution platform", "strings restricted to a shell-neutral alphabet (hostile strings are C08)"}
 	nontrivial := func(r Result) bool { return len(r.Stdout) > 0 && len(r.Features) >= 3 }
 	cases := []BashCase{}
